@@ -203,6 +203,104 @@ func init() {
 				serve = func(req *http.Request) rig.Answer { return rig.Answer{Body: small} }
 			})
 			_ = sc.CM.UpdateExtraConfig(prom.ExtraConfig{})
+			// a transient break: the first response breaks off at byte `cut`, any further request of the same
+			// scrape (a retry inside the proxy) is served completely. Prometheus must see a failure or
+			// exactly the full payload - never a concatenation
+			for _, gzipOn := range []bool{false, true} {
+				wire := small
+				if gzipOn {
+					wire = gz(small)
+				}
+				for _, cut := range []int{0, 1, len(wire) / 2, len(wire) - 1} {
+					cut, gzipOn := cut, gzipOn
+					idx++
+					if !c.Mine(idx) {
+						continue
+					}
+					nreq := 0
+					serve = func(req *http.Request) rig.Answer {
+						nreq++
+						if nreq == 1 {
+							return rig.Answer{Gzip: gzipOn, BodyReader: func() io.ReadCloser { return &breakReader{data: wire, cut: cut, chunk: 64} }}
+						}
+						return rig.Answer{Body: small, Gzip: gzipOn}
+					}
+					h := uint64(1)
+					if !assigned {
+						h = 999
+					}
+					before := sc.TM.TargetsInfo().Status[1].ScrapeTimes
+					resp, err := cli.Get(rig.ProxyURL("j1", h, "http", "t1:80", "/metrics", nil))
+					r.States++
+					r.Transitions++
+					r.Nontrivial++
+					cs := c13Case{Kind: "body-breaks-once-then-serves", Gzip: gzipOn, Cut: cut, BodyLen: len(wire), Assigned: assigned}
+					obs := map[string]interface{}{"target_requests": nreq}
+					clean200 := false
+					var got []byte
+					if err == nil {
+						var rerr error
+						got, rerr = io.ReadAll(resp.Body)
+						resp.Body.Close()
+						obs["status"], obs["body_len"] = resp.StatusCode, len(got)
+						clean200 = resp.StatusCode == 200 && rerr == nil
+					} else {
+						obs["client_error"] = err.Error()
+					}
+					rp := &c13Replay{Property: "C13", Clause: "prometheus-side-fails", Case: cs, Observed: obs}
+					if clean200 && !bytes.Equal(got, small) {
+						r.Violate("C13:complete-200:transient-break", "prometheus-side-fails", fmt.Sprintf("%+v: the first response broke off, Prometheus received a complete 200 with %d bytes (payload is %d)", cs, len(got), len(small)), idx, rp)
+					}
+					if assigned {
+						st := sc.TM.TargetsInfo().Status[1]
+						if st.ScrapeTimes != before+1 {
+							r.Violate("C13:counter:transient-break", "counter-once", fmt.Sprintf("%+v: counter %d -> %d for one Prometheus-side scrape", cs, before, st.ScrapeTimes), idx, rp)
+						}
+						if clean200 != (string(st.Health) == "up") {
+							r.Violate("C13:health-disagrees:transient-break", "truthful-health", fmt.Sprintf("%+v: Prometheus-side success=%v but health %s", cs, clean200, st.Health), idx, rp)
+						}
+					}
+				}
+			}
+			// the same assignment is posted again while the scrape is in flight (the coordinator does that every
+			// cycle): outcome and counter must still be recorded on the target's visible status
+			for _, failing := range []bool{false, true} {
+				failing := failing
+				idx++
+				if c.Mine(idx) && assigned {
+					serve = func(req *http.Request) rig.Answer {
+						if err := sc.Update(map[string][]*target.Target{"j1": {c14Target(1, [2]int64{1, 1})}}); err != nil {
+							panic(err)
+						}
+						if failing {
+							return rig.Answer{Status: 500}
+						}
+						return rig.Answer{Body: small}
+					}
+					before := sc.TM.TargetsInfo().Status[1].ScrapeTimes
+					resp, err := cli.Get(rig.ProxyURL("j1", 1, "http", "t1:80", "/metrics", nil))
+					if err == nil {
+						io.ReadAll(resp.Body)
+						resp.Body.Close()
+					}
+					r.States++
+					r.Transitions++
+					r.Nontrivial++
+					st := sc.TM.TargetsInfo().Status[1]
+					cs := c13Case{Kind: "assignment-reposted-in-flight", Assigned: true}
+					obs := map[string]interface{}{"failing": failing, "health": string(st.Health), "last_error": st.LastError, "counter_before": before, "counter_after": st.ScrapeTimes}
+					rp := &c13Replay{Property: "C13", Clause: "truthful-health", Case: cs, Observed: obs}
+					if st.ScrapeTimes != before+1 {
+						r.Violate("C13:counter:update-in-flight", "counter-once", fmt.Sprintf("scrape with the assignment re-posted in flight: counter %d -> %d", before, st.ScrapeTimes), idx, rp)
+					}
+					if failing && (string(st.Health) != "down" || st.LastError == "") {
+						r.Violate("C13:health-after-failure:update-in-flight", "truthful-health", fmt.Sprintf("failed scrape with the assignment re-posted in flight: health %s error %q", st.Health, st.LastError), idx, rp)
+					}
+					if !failing && (string(st.Health) != "up" || st.LastError != "") {
+						r.Violate("C13:health-after-success:update-in-flight", "truthful-health", fmt.Sprintf("successful scrape with the assignment re-posted in flight: health %s error %q", st.Health, st.LastError), idx, rp)
+					}
+				}
+			}
 			// the stop-scrape reason is lifted / set while the scrape is in flight: whatever the proxy
 			// decides, Prometheus and the status must agree (a complete 200 carries the full payload)
 			for _, lift := range []bool{true, false} {
